@@ -54,7 +54,7 @@ theorem load_xref_of_incr_save (d1 d2 : SDoc) (out1 out2 : Bytes) (d1' d2' : SDo
   have hD2' : DictReadsBack d2'.trailer (STARTXREF_KW ++ natDigits (bodyOf (incrPre out1) d2).length ++ EOF_KW) := by
     have := hD2 ([115, 116, 97, 114, 116, 120, 114, 101, 102, 10] ++ natDigits (bodyOf (incrPre out1) d2).length ++ EOF_KW)
     simpa [STARTXREF_KW] using this
-  obtain ⟨xs, table2, hstart, _, hxt2, hget2, _⟩ :=
+  obtain ⟨xs, table2, hstart, _, hxt2, hget2, _, _⟩ :=
     load_xref_of_save_table (incrPre out1) d2 out2 d2' hk2 h2' hlen hmax2 hg2 hD2'
   obtain ⟨_, htr2⟩ := saveFrom_table_eq (incrPre out1) d2 out2 d2' hk2 h2'
   -- the old revision inside the new file
@@ -67,7 +67,7 @@ theorem load_xref_of_incr_save (d1 d2 : SDoc) (out1 out2 : Bytes) (d1' d2' : SDo
         ++ natDigits (bodyOf [] d1).length ++ EOF_KW ++ R))))) := by
     rw [hR, hout1, htr1]
     simp [STARTXREF_KW]
-  obtain ⟨table1, hxt1, hget1⟩ := xrefAndTrailer_table (xmapOf [] d1) (d1.maxId + 1) d1'.trailer
+  obtain ⟨table1, hxt1, hget1, _⟩ := xrefAndTrailer_table (xmapOf [] d1) (d1.maxId + 1) d1'.trailer
     (10 :: ([115, 116, 97, 114, 116, 120, 114, 101, 102, 10] ++ natDigits (bodyOf [] d1).length ++ EOF_KW ++ R))
     (xmapOf_ok [] d1 hg1) hmax1 (hD1 _) (by rw [htr1, Dict.get_set_same]; simp)
   have hb1 : (bodyOf [] d1).length ≤ out2.length := by
